@@ -34,12 +34,11 @@ pub struct Config {
     pub max_connection_backoff_ms: Option<u64>,
     pub connect_timeout_ms: Option<u64>,
 }
-// the peer table handed to the network by the application (lookup only)
-pub struct KnownPeers { pub table: Ghost<Map<PeerId, PeerInfo>> }
+// the peer table handed to the network by the application: KnownPeers(Arc<RwLock<HashMap<PeerId, PeerInfo>>>) with the lock lifted (X8);
+// `get` is extracted and verified below
+pub struct KnownPeers(pub HashMap<PeerId, PeerInfo>);
 impl KnownPeers {
-    #[verifier::external_body]
-    pub fn get(&self, peer_id: &PeerId) -> (r: Option<PeerInfo>)
-        ensures r is Some <==> self.table@.contains_key(*peer_id), r is Some ==> r->Some_0 == self.table@[*peer_id] { unimplemented!() }
+    pub fn inner(&self) -> (r: &HashMap<PeerId, PeerInfo>) ensures *r == self.0 { &self.0 }
 }
 // an inbound / outbound QUIC+TLS handshake in progress: resolves to an authenticated connection or fails
 pub struct Connecting { pub outcome: Ghost<Result<Connection>>, pub expected: Ghost<Option<PeerId>>, pub to: Ghost<u64> }
@@ -164,7 +163,11 @@ def await_connecting(e):
 def build(C):
     t = STANDINS
     t += C.item(TYPES, 'enum PeerAffinity')
-    t += C.item(TYPES, 'struct PeerInfo')
+    t += C.item(TYPES, 'struct PeerInfo', derives=False)
+    t += '''impl Clone for PeerInfo {   // derived Clone of a plain data type is a structural copy (trusted)
+    #[verifier::external_body] fn clone(&self) -> (r: Self) ensures r == *self { unimplemented!() }
+}
+'''
     t += C.item(CM, 'struct DialBackoffState', rewrites=[('X5', 'std::time::Instant', 'Instant', 1)])
     t += C.item(CM, 'struct ConnectingOutput', rewrites=[('X5', 'oneshot::Sender<Result<PeerId>>', 'oneshot::Sender<Result<PeerId>>', 1)])
     t += SPEC
@@ -207,6 +210,12 @@ def build(C):
 ''')
     t += '}\n'
 
+    t += 'impl KnownPeers {\n'
+    t += C.fn(CM, 'impl KnownPeers :: fn get', 'KnownPeers::get', ['C10'], ret='r', body_prefix='\n        broadcast use axiom_peer_id_key;\n', spec='''
+    ensures
+        r == (if self.0@.contains_key(*peer_id) { Some(self.0@[*peer_id]) } else { None::<PeerInfo> }), // @OBL KnownPeers::get::is_table_lookup [C10] the affinity used for admission is the one the application registered for exactly that peer (or none)
+''')
+    t += '}\n'
     # ---- admission (C10): the `async { .. }` block of handle_incoming_task ----------------------------------
     t += C.lifted(CM, 'impl ConnectionManager :: fn handle_incoming_task', 'ConnectionManager::handle_incoming_task::admission', ['C10'],
                   anchor='let fut = async', kind='block', name='handle_incoming_task_admission', is_async=True,
@@ -218,7 +227,7 @@ def build(C):
         connecting.outcome@ is Err ==> r is Err, // @OBL admission::failed_tls_is_rejected [C10] a connection whose TLS handshake fails is never admitted
         connecting.outcome@ is Ok ==> ({
             let c = connecting.outcome@->Ok_0;
-            let info = if known_peers.table@.contains_key(c.peer) { Some(known_peers.table@[c.peer]) } else { None::<PeerInfo> };
+            let info = if known_peers.0@.contains_key(c.peer) { Some(known_peers.0@[c.peer]) } else { None::<PeerInfo> };
             let ok = admit(info, config.max_concurrent_connections, old(active_peers).0.connections@.dom().len());
             (ok ==> r == wire::handshake_spec(c)) && (!ok ==> r is Err)
         }), // @OBL admission::decision [C10] Never -> refused; High/Allowed -> admitted regardless of the limit; anyone else -> admitted iff no limit or established connections (inbound and outbound alike) < limit; admitted means: proceeds to the acknowledgement handshake, refused means: error, connection dropped before the acknowledgement
